@@ -132,6 +132,22 @@ func Model(block []mlua.Stmt, lines mlua.Lines, specs []string) luaref.Result {
 	return in.Run(block, ModelArgs(specs))
 }
 
+// YieldsInsideProtectedCall: does the program make a coroutine yield while a
+// pcall/xpcall/callcontext of that coroutine is active? Decided by running the
+// reference interpreter; if the model cannot run the program to its end the
+// program text decides (over-approximation). Input class of the open finding
+// C07-yield-leaves-context-pushed as the limit checks meet it.
+func YieldsInsideProtectedCall(block []mlua.Stmt, lines mlua.Lines, specs []string, src string) bool {
+	res := Model(block, lines, specs)
+	if res.Feat["yield-inside-protected-call"] > 0 {
+		return true
+	}
+	if res.Unspecified != "" || res.Budget {
+		return strings.Contains(src, "yield") && (strings.Contains(src, "pcall") || strings.Contains(src, "callcontext"))
+	}
+	return false
+}
+
 // ExpectedOf converts a model result.
 func ExpectedOf(res luaref.Result) Expected {
 	return Expected{Events: res.Events, Rets: res.Rets, Err: res.Err}
